@@ -55,6 +55,35 @@ def mk_reconstruct(t, n, perm, enc):
                    [{'mod': 'wit', 'fn': '@W@', 'args': ['L', 'U', 'P', 'R']}, {'mod': 'ref', 'fn': '@R@', 'args': ['L', 'U', 'Rref']}], [{'kind': 'equal', 'a': 'R', 'b': 'Rref', 'cells': n * n, 'mode': 'ALG'}])
 
 
+def mk_pivoted(t, n, strat, enc):
+    """lu<...Piv>(A,L,U,P) end to end on A = L(lam)D(del)U(mu): in every case of the symbolic pivot search L is unit lower, U upper,
+    P is a bijection (vector) / permutation matrix, and reconstruct(L,U,P) gives back A"""
+    ct = CTYPE[t]; tt = tensor_t(t, [n, n])
+    Pt = 'Tensor<size_t,%d>' % n if enc == 'V' else tt
+    wit = 'extern "C" void @W@(const %s& A, %s& L, %s& U, %s& P, %s& R){ lu<LUCompType::%s>(A, L, U, P); R = reconstruct(L, U, P); }' % (tt, tt, tt, Pt, tt, strat)
+    if enc == 'V':
+        post = 'extern "C" void @R@post(const %s* A, const %s* R, const unsigned long* P, %s* D, long* Q){ for(int i=0;i<%d;i++) D[i] = R[i] - A[i]; for(int i=0;i<%d;i++){ long c=0; for(int j=0;j<%d;j++) c += (P[j]==(unsigned long)i); Q[i] = c - 1; } }' % (ct, ct, ct, n * n, n, n)
+        preg = {'name': 'P', 'ety': 'i64', 'cells': n, 'kind': 'tensor', 'role': 'out', 'init': 'undef'}
+        qreg = {'name': 'Q', 'ety': 'i64', 'cells': n, 'kind': 'raw', 'role': 'scratch', 'init': 'undef'}
+        qn = n
+    else:
+        post = ('extern "C" void @R@post(const %s* A, const %s* R, const %s* P, %s* D, %s* Q){ for(int i=0;i<%d;i++) D[i] = R[i] - A[i]; for(int i=0;i<%d;i++) for(int j=0;j<%d;j++){ %s s=0; for(int k=0;k<%d;k++) s += P[i*%d+k]*P[j*%d+k]; Q[i*%d+j] = s - (i==j?1:0); } }'
+                % (ct, ct, ct, ct, ct, n * n, n, n, ct, n, n, n, n))
+        preg = treg('P', t, [n, n], 'out')
+        qreg = rreg('Q', t, n * n)
+        qn = n * n
+    ref = pre_ldu(ct, n) + '\n' + post
+    regions = ldu_regions(t, n) + [treg('A', t, [n, n], 'in', init='undef'), treg('L', t, [n, n], 'out'), treg('U', t, [n, n], 'out'), preg, treg('R', t, [n, n], 'out'), rreg('D', t, n * n), qreg]
+    stages = [{'mod': 'ref', 'fn': '@R@pre', 'args': ['lam', 'del', 'mu', 'A']}, {'mod': 'wit', 'fn': '@W@', 'args': ['A', 'L', 'U', 'P', 'R']}, {'mod': 'ref', 'fn': '@R@post', 'args': ['A', 'R', 'P', 'D', 'Q']}]
+    upper = [i * n + j for i in range(n) for j in range(n) if i < j]
+    lower = [i * n + j for i in range(n) for j in range(n) if i > j]
+    diag = [i * n + i for i in range(n)]
+    obl = [{'kind': 'zero', 'region': 'D', 'cells': n * n}, {'kind': 'zero', 'region': 'Q', 'cells': qn},
+           {'kind': 'const', 'region': 'L', 'cells': upper, 'value': 0}, {'kind': 'const', 'region': 'L', 'cells': diag, 'value': 1, 'mode': 'EXACTDIV'}, {'kind': 'const', 'region': 'U', 'cells': lower, 'value': 0}]
+    return Witness('lupiv_%s_%s_%s_%d' % (t, strat, enc, n), 'lu.' + strat + '.pivoted.' + enc, {'type': t, 'n': n, 'strategy': strat, 'enc': enc}, wit, ref, regions, stages, obl,
+                   extra={'poly_cap': 600000, 'max_steps': 300000000, 'max_ms': 400000})
+
+
 def witnesses(tier, seed):
     quick = tier == 'quick'
     W = []
@@ -71,6 +100,13 @@ def witnesses(tier, seed):
             for n in (1, 2, 3, 4, 5, 8, 9, 12, 16, 17):
                 W.append(mk_structure(t, n, strat))
     W += pivot_helper_witnesses(['recon_vec', 'recon_mat', 'apply_mat', 'apply_vec', 'recon2'], tier)
+    for t in ('f64', 'f32'):
+        for strat in ('SimpleLUPiv', 'BlockLUPiv'):
+            for enc in ('V', 'M'):
+                for n in ([1, 2, 3] if quick else [1, 2, 3, 4]):
+                    if t == 'f32' and n > (2 if quick else 3):
+                        continue
+                    W.append(mk_pivoted(t, n, strat, enc))
     return group_sort(W)
 
 
